@@ -41,7 +41,7 @@ type RequestHCL struct {
 	Name           string                    `hcl:"name,label"`
 	Method         string                    `hcl:"method"`
 	URI            string                    `hcl:"uri"`
-	Headers        map[string]string         `hcl:"headers" yaml:"headers,omitempty"`
+	Headers        map[string]string         `hcl:"headers,optional" yaml:"headers,omitempty"`
 	Tag            *string                   `hcl:"tag" yaml:"tag,omitempty"` //TODO: remove
 	Body           *string                   `hcl:"body" yaml:"body,omitempty"`
 	Preprocessor   *RequestPreprocessorHCL   `hcl:"preprocessor,block" yaml:"preprocessor,omitempty"`
